@@ -68,6 +68,9 @@ def repl_once_oracle(script, impl):
     for ws, out in _ops(script, impl):
         if ws[0] != 'await':
             continue
+        mo = [t[9:] for t in (out or '').split() if t.startswith('monotone=')]
+        if mo and mo[0] != 'ok':
+            probs.append('applied-sequence-regressed: the applied sequence a replica reports went backwards within one run of its process: %s' % mo[0][:120])
         al = [t[9:] for t in (out or '').split() if t.startswith('applylog=')]
         if al and al[0] != 'ok':
             probs.append('not-exactly-once: a replica applied an operation twice or out of log order within one run of its process: %s' % al[0][:300])
